@@ -2176,6 +2176,8 @@ impl Kanata {
         self.layout.b().queue.is_empty()
             && zippy_is_idle()
             && self.layout.b().waiting.is_none()
+            // Further tap-holds pressed while one is pending wait here, each with its own timeout.
+            && self.layout.b().extra_waiting.is_empty()
             && self.layout.b().oneshot.pause_input_processing_ticks == 0
             && self.layout.b().last_press_tracker.tap_hold_timeout == 0
             && self.layout.b().oneshot.keys.is_empty()
